@@ -1,6 +1,7 @@
 package props
 
 import (
+	"sync"
 	"time"
 
 	"verif/internal/check"
@@ -58,7 +59,46 @@ func init() {
 		partE1(c, a, e1Batch{Profiles: []string{"registry", "isolation"}, Histories: c.Pick(160, 1600), Steps: c.Pick(100, 160), MaxConns: 6, MaxSess: 3, Census: true},
 			"at least one session ended and its id was reused by a later session",
 			func(s *e1.Stats) bool { return s.SessionsEnded >= 1 && s.SIDsReused >= 1 })
-		partGated(c, a, []func(*sut.Proc) *e2.Result{e2.G1JoinVsLastLeave, e2.G2TwoLastLeaves, e2.G3LateUnregister}, c.Pick(2, 10))
+		partGated(c, a, []func(*sut.Proc) *e2.Result{e2.G1JoinVsLastLeave, e2.G2TwoLastLeaves, e2.G3LateUnregister, e2.G3cLastLeaveVsCreate}, c.Pick(2, 10))
+		partRegistryStorms(c, a)
 		return a.finish(c)
 	}
+}
+
+func partRegistryStorms(c *check.Ctx, a *acc) {
+	bin, err := c.WS.Build("lab", "plain")
+	if err != nil {
+		c.Inconc("build failed: " + err.Error())
+		return
+	}
+	n := c.Pick(8, 48)
+	var mu sync.Mutex
+	total, done := 0, 0
+	parallel(n, 4, func(i int) {
+		opts := sut.LabOpts{Name: "regstorm"}
+		if i%2 == 1 {
+			opts.RT = "jitter"
+		}
+		p, err := c.WS.StartLab(bin, opts)
+		if err != nil {
+			c.Inconc(err.Error())
+			return
+		}
+		defer p.Kill()
+		created, findings, inc := e2.RegistryStorm(p, 8, c.Pick(40, 120))
+		mu.Lock()
+		defer mu.Unlock()
+		done++
+		total += created
+		for _, f := range findings {
+			c.Report(f)
+		}
+		for _, s := range inc {
+			c.Inconc(s)
+		}
+	})
+	c.Coverage["registry_storms"] = done
+	c.Coverage["registry_storm_sessions_created_and_probed"] = total
+	a.add(done, done, "registry storms: 8 pairs of connections create a session, join it by id at once and end it, concurrently (free-running or jittered): every just-created session with a live member must be joinable under its id with the same uuid; gauge and frame workers are checked at the end",
+		map[string]any{"engine": "E2 registry storm", "pairs": 8, "sessions_created": total})
 }
